@@ -107,8 +107,10 @@ def one(ctx, res: Result, hist, recursive, full, kind, spelling, batch):
     return run
 
 
-def polling(ctx, res: Result, hist, recursive, kind, spelling):
-    """The same operations under the polling observer (real threads, short interval): same oracle."""
+def polling(ctx, res: Result, hist, recursive, kind, spelling, second_kind=None):
+    """The same operations under the polling observer (real threads, short interval): same oracle.  With second_kind a
+    second handler is scheduled on the same observer for the same directory, its path given in another type: every
+    handler must see the type of ITS OWN schedule() call."""
     import pathlib
     import tempfile
     from watchdog.events import FileSystemEventHandler
@@ -132,6 +134,13 @@ def polling(ctx, res: Result, hist, recursive, kind, spelling):
                 evs.append(e)
         obs = PollingObserver(timeout=0.01)
         obs.schedule(H(), wp, recursive=recursive)
+        evs2 = []
+        if second_kind:
+            class H2(FileSystemEventHandler):
+                def on_any_event(self, e):
+                    evs2.append(e)
+            wp2 = os.fsencode(spelled) if second_kind == "bytes" else pathlib.Path(spelled) if second_kind == "path" else spelled
+            obs.schedule(H2(), wp2, recursive=recursive)
         obs.start()
 
         class FakeRun:
@@ -176,8 +185,12 @@ def polling(ctx, res: Result, hist, recursive, kind, spelling):
     finally:
         os.chdir(cwd)
         shutil.rmtree(sc, ignore_errors=True)
-    meta = {"history": hist, "recursive": recursive, "path_kind": kind, "root_spelling": spelling, "backend": "polling"}
+    meta = {"history": hist, "recursive": recursive, "path_kind": kind, "root_spelling": spelling, "backend": "polling",
+            "second_kind": second_kind}
     res.evaluations += 1
+    if second_kind:
+        res.hist("two_schedules_of_one_directory", f"{kind}+{second_kind}")
+        check_events(second_kind, evs2, bytes if second_kind == "bytes" else str, expected, meta, res, "polling(second schedule)")
     res.hist("polling_events", min(40, len(evs)) // 5 * 5)
     if len(evs) >= 3:
         res.nontrivial.add(core.digest(meta))
@@ -202,7 +215,9 @@ def run(ctx) -> Result:
         one(ctx, res, hist, recursive, bool(i % 7 == 3), kind, spelling, batch)
         if i % 2 == 0:
             # the polling backend, cycling through all path kinds and spellings independently of the native run
-            polling(ctx, res, hist, recursive, KINDS[(i // 2) % 3], SPELL[(i // 6) % 3])
+            k1 = KINDS[(i // 2) % 3]
+            polling(ctx, res, hist, recursive, k1, SPELL[(i // 6) % 3],
+                    second_kind=KINDS[(KINDS.index(k1) + 1 + (i // 4) % 2) % 3] if i % 4 == 0 else None)
     pipecheck.check_model(res, "C19", batch)
     return res
 
@@ -212,7 +227,7 @@ def replay(ctx, obj) -> int:
     res = Result()
     batch = []
     if case.get("backend") == "polling":
-        polling(ctx, res, case["history"], case["recursive"], case["path_kind"], case["root_spelling"])
+        polling(ctx, res, case["history"], case["recursive"], case["path_kind"], case["root_spelling"], case.get("second_kind"))
     else:
         one(ctx, res, case["history"], case["recursive"], case.get("full_events", False), case["path_kind"],
             case["root_spelling"], batch)
